@@ -1,52 +1,146 @@
 """C01 — confidence-map training targets faithfully encode the labelled keypoints.
 
-Model: coq/theories/C01/ConfMaps.v (cells hold the *argument* of exp as an exact
-rational, None = value 0); theorems: coq/theories/C01/Props.v (over Coq's reals).
-Tie: correspondence with generate_confmaps / generate_multiconfmaps (both
-variants) and the two DataPipes on generated keypoint arrays.
+Model: coq/theories/C01/ConfMaps.v + Entry.v (cells hold the *argument* of exp as an
+exact rational, None = value 0); theorems: coq/theories/C01/Props.v (over Coq's reals).
+
+Tie 1 (static, per-run theorems): translator/c01_confmaps2coq.py regenerates from the
+source of make_grid_vectors / make_confmaps / make_multi_confmaps / generate_confmaps /
+generate_multiconfmaps a description of each body in the language of C01/TExpr.v
+(Gen/C01_ConfmapsIR.v); one per-run theorem per function states that the regenerated
+description denotes the model function (closed with the once-and-for-all theorems of
+Lemmas2.v, which type-checks only if the description is the canonical one).
+Tie 2 (dynamic): correspondence of the model with generate_confmaps /
+generate_multiconfmaps (both layouts), make_confmaps / make_multi_confmaps on arbitrary
+grid vectors, make_grid_vectors, and the two DataPipes with their key options, on
+generated keypoint arrays (dtype float32 / float64 / int64, num_instances int / 0-d
+tensor, img_hw tuple / torch.Size / list, sigma float / int).
 Oracle: the property statement evaluated in float64 on the implementation's
 output (range, finiteness, shape, value formula, max over animals, zero channel
 for missing keypoints, maximum at the nearest grid cell).
 """
 from __future__ import annotations
 
+import importlib
 import json
 import math
+import os
+import shutil
+import sys
+from concurrent.futures import ThreadPoolExecutor
 from fractions import Fraction as F
+from pathlib import Path
 
 from .. import core
 
 PROP_FILES = [core.THEORIES / "C01" / "Props.v"]
-PREAMBLE = ("From SV Require Import C01.ConfMaps.\nFrom Coq Require Import List QArith.\n"
+PREAMBLE = ("From SV Require Import C01.ConfMaps C01.Entry.\nFrom Coq Require Import List QArith.\n"
             "Import ListNotations.\nOpen Scope Q_scope.\n")
 RENDER = "rlist (rlist (rlist (rlist (ropt rQ))))"
 ATOL, RTOL = 2e-6, 3e-4           # float32 exp of a float32 argument
+GEN_DIR = core.THEORIES / "Gen"
+
+GRID_KINDS = ("gen3", "gen4", "multi", "cent", "dp_single", "dp_other", "dp_multi", "dp_cent")
+MK_KINDS = ("mk", "mkmulti")
+
+
+# ---------------------------------------------------------------- tie 1: translator
+def load_translator():
+    sys.path.insert(0, str(core.VERIF))
+    import translator.c01_confmaps2coq as tr
+    return importlib.reload(tr)
+
+
+def coqc_in(d: Path, f: str, timeout=300):
+    return core.sh(["coqc", *core.COQ_FLAGS, "-Q", str(d), "C01Gen", f], cwd=d, timeout=timeout)
+
+
+def static_tie(run: core.Run):
+    tr = load_translator()
+    try:
+        res = tr.translate(core.REPO)
+    except Exception as e:                      # file / signature level: nothing can be said about any function
+        run.obligation("translator confmaps2coq: the five function definitions are where and what they are "
+                       "expected to be (fail-closed)", False, f"{type(e).__name__}: {e}")
+        return
+    run.obligation("translator confmaps2coq: the five function definitions are where and what they are "
+                   "expected to be (fail-closed)", True)
+    for py in tr.TARGETS:
+        run.obligation(f"translator confmaps2coq: body of {py} is inside the recognised fragment (fail-closed)",
+                       py in res["terms"], res["errors"].get(py, ""))
+    d = core.scratch_dir("sv_c01gen_")
+    try:
+        (d / "C01_ConfmapsIR.v").write_text(res["ir"])
+        rc, out = coqc_in(d, "C01_ConfmapsIR.v")
+        run.obligation("generated Gen/C01_ConfmapsIR.v compiles", rc == 0, out[-1200:])
+        if rc != 0:
+            return
+        for py, (fname, txt) in res["obligs"].items():
+            (d / fname).write_text(txt)
+
+        def one(item):
+            py, (fname, _) = item
+            rc, out = coqc_in(d, fname)
+            return py, rc, out
+
+        with ThreadPoolExecutor(max_workers=5) as ex:
+            results = list(ex.map(one, res["obligs"].items()))
+        for py, rc, out in results:
+            closed = "Closed under the global context" in out
+            run.obligation(f"per-run theorem: the description regenerated from the source of {py} denotes the "
+                           f"model function (Gen/C01_Oblig_{py}.v)", rc == 0 and closed,
+                           out[-1200:] if rc else ("" if closed else "not closed under the global context: " + out[-600:]))
+        run.coverage["translator"] = {"sha1": res["sha1"], "functions": sorted(res["terms"]),
+                                      "unsupported": res["errors"]}
+        if not core._MUT:                       # copies for inspection (git-ignored)
+            try:
+                GEN_DIR.mkdir(exist_ok=True)
+                for f in d.glob("C01_*.v"):
+                    tmp = GEN_DIR / (f.name + f".tmp{os.getpid()}")
+                    shutil.copy(f, tmp)
+                    os.replace(tmp, GEN_DIR / f.name)
+            except OSError:
+                pass
+    finally:
+        shutil.rmtree(d, ignore_errors=True)
 
 
 # ---------------------------------------------------------------- generation
-def gen_kp(rng, H, W, s, p_nan):
+def gen_kp(rng, H, W, s, p_nan, integer=False, far=False):
     r = rng.random()
-    if r < p_nan:
+    if r < p_nan and not integer:
         k = rng.random()
         if k < 0.5:
             return (None, None)
         x = F(rng.randrange(0, 8 * W), 8)
         return (x, None) if k < 0.75 else (None, x)
+
     def coord(n):
         t = rng.random()
+        if far and t < 0.5:                # far outside the image
+            m = rng.choice([-1, 1]) * rng.randrange(8 * 200, 8 * 5000)
+            return F(m // 8) if integer else F(m, 8)
         if t < 0.15:                       # exactly on a grid point
             return F(s * rng.randrange(0, max(1, -(-n // s))))
         if t < 0.25:                       # on / just outside the border
             return F(rng.choice([0, n - 1, n, -1, n + s]))
+        if integer:
+            return F(rng.randrange(-2 * s, n + 2 * s))
         if t < 0.35:                       # outside
             return F(rng.randrange(-16 * s, 8 * (n + 2 * s)), 8)
         return F(rng.randrange(0, 16 * n), 16)
     return (coord(W), coord(H))
 
 
-def gen_case(rng, thorough):
-    kind = rng.choice(["gen3", "gen4", "multi", "multi", "cent", "dp_single", "dp_multi", "dp_cent"])
-    s = rng.choice([1, 2, 4, 8])
+SIGMAS = [F(1, 2), F(1), F(3, 2), F(5, 2), F(5)]
+SIGMAS_EXTREME = [F(1, 8), F(1, 4), F(10), F(64)]
+
+
+def gen_case(rng, thorough, stream=None):
+    kind = rng.choice(["gen3", "gen4", "multi", "multi", "cent", "dp_single", "dp_other", "dp_multi", "dp_cent",
+                       "mk", "mkmulti"])
+    if stream in ("empty", "nanfirst"):
+        kind = rng.choice(["multi", "cent", "dp_cent", "dp_multi"])
+    s = rng.choice([1, 2, 4, 8]) if rng.random() < 0.85 else rng.choice([16, 32])
     big = 40 if thorough else 24
     shape_kind = rng.random()
     if shape_kind < 0.1:
@@ -63,21 +157,60 @@ def gen_case(rng, thorough):
             H = max(1, H // 2)
         else:
             W = max(1, W // 2)
-    sigma = rng.choice([F(1, 2), F(1), F(3, 2), F(5, 2), F(5)])
-    p_nan = rng.choice([0, 0, 0.2, 0.5, 1.0])
+    sigma = rng.choice(SIGMAS) if rng.random() < 0.8 else rng.choice(SIGMAS_EXTREME)
+    dtype = rng.choice(["f32", "f32", "f32", "f32", "f64", "int"])
+    integer = dtype == "int"
+    p_nan = 0 if integer else rng.choice([0, 0, 0.2, 0.5, 1.0])
+    far = rng.random() < 0.1
     n_samples = 1 if rng.random() < 0.8 else 2
-    n_inst = rng.randint(0 if kind in ("multi", "cent") else 1, 4)
+    multi_like = kind in ("multi", "cent", "dp_cent", "dp_multi", "mkmulti")
+    n_inst = rng.randint(0 if multi_like else 1, 4)
     n_nodes = rng.randint(1, 4)
-    if kind in ("dp_single",):
+    if kind == "dp_single" and rng.random() < 0.7:
         n_inst = 1
-    pts = [[[gen_kp(rng, H, W, s, p_nan) for _ in range(n_nodes)] for _ in range(n_inst)]
+    if stream == "empty":
+        n_inst = rng.choice([0, 2, 3, 4])
+    if stream == "nanfirst":
+        n_inst = rng.randint(2, 4)
+    pts = [[[gen_kp(rng, H, W, s, p_nan, integer, far) for _ in range(n_nodes)] for _ in range(n_inst)]
            for _ in range(n_samples)]
-    if rng.random() < 0.15 and n_inst > 0:              # one whole animal missing
+    if not integer and n_inst > 0 and (stream == "nanfirst" or rng.random() < 0.2):   # whole animals missing
         for smp in pts:
-            smp[rng.randrange(n_inst)] = [(None, None)] * n_nodes
-    num = rng.randint(0, n_inst) if rng.random() < 0.5 else n_inst
-    return {"kind": kind, "H": H, "W": W, "s": s, "sigma": sigma, "pts": pts, "num": num,
-            "n_nodes": n_nodes}
+            k = rng.randrange(n_inst - 1) if (stream == "nanfirst" or (n_inst > 1 and rng.random() < 0.6)) \
+                else rng.randrange(n_inst)                      # mostly NOT in the final position
+            smp[k] = [(None, None)] * n_nodes
+            if stream == "nanfirst":                            # and a labelled animal after it
+                smp[-1] = [gen_kp(rng, H, W, s, 0, False, False) for _ in range(n_nodes)]
+    r = rng.random()
+    if stream == "empty":
+        num = 0
+    elif r < 0.4:
+        num = rng.randint(0, n_inst)
+    elif r < 0.5:
+        num = n_inst + rng.randint(1, 2)                        # slice bound beyond the array
+    else:
+        num = n_inst
+    if kind == "dp_multi" and not integer and n_inst > 0 and rng.random() < 0.5:
+        # as in the pipeline: rows beyond num_instances are NaN padding (the pipe does not slice)
+        num = rng.randint(0, n_inst)
+        for smp in pts:
+            for k in range(num, n_inst):
+                smp[k] = [(None, None)] * n_nodes
+    c = {"kind": kind, "H": H, "W": W, "s": s, "sigma": sigma, "pts": pts, "num": num, "n_nodes": n_nodes,
+         "opts": {"dtype": dtype,
+                  "num": rng.choice(["int", "tensor"]),
+                  "hw": rng.choice(["tuple", "size", "list"]),
+                  "sigma": "int" if (sigma.denominator == 1 and rng.random() < 0.5) else "float",
+                  "keys": rng.random() < 0.5}}
+    if kind in MK_KINDS:                                        # arbitrary grid vectors, sigma used as given
+        def vec(n):
+            ln = rng.choice([0, 1, 2, 3, 5, 8]) if rng.random() < 0.5 else -(-n // s)
+            ln = min(ln, 9)
+            if rng.random() < 0.5:
+                return [F(k * s) for k in range(ln)]
+            return [F(rng.randrange(-16, 16 * (n + 2)), 8) for _ in range(ln)]
+        c["xv"], c["yv"] = vec(W), vec(H)
+    return c
 
 
 def visible(p):
@@ -92,66 +225,98 @@ def term(c):
     k = c["kind"]
     H, W, s, sg = c["H"], c["W"], c["s"], core.cq(c["sigma"])
     l3 = lambda inst: core.clist(inst, ckp)
-    if k == "gen3":                                  # (samples, nodes, 2): first instance only
-        pts = core.clist([smp[0] for smp in c["pts"]], l3)
-        return f"CGen3 {pts} {H} {W} {sg} {s}"
-    if k in ("gen4",):
-        pts = core.clist(c["pts"], lambda smp: core.clist(smp, l3))
-        return f"CGen4 {pts} {H} {W} {sg} {s}"
+    p4 = lambda: core.clist(c["pts"], lambda smp: core.clist(smp, l3))
+    p3 = lambda: core.clist([smp[0] for smp in c["pts"]], l3)        # (samples, nodes, 2): first instance only
+    cents = lambda: core.clist([[inst[0] for inst in smp] for smp in c["pts"]], l3)   # centroid := first node
+    if k == "gen3":
+        return f"C2Old (CGen3 {p3()} {H} {W} {sg} {s})"
+    if k == "gen4":
+        return f"C2Old (CGen4 {p4()} {H} {W} {sg} {s})"
     if k == "dp_single":
-        pts = core.clist(c["pts"], lambda smp: core.clist(smp, l3))
-        return f"CGen4 {pts} {H} {W} {sg} {s}"
-    if k in ("multi",):
-        pts = core.clist(c["pts"], lambda smp: core.clist(smp, l3))
-        return f"CMulti {pts} {c['n_nodes']} {H} {W} {c['num']} {sg} {s}"
+        return f"C2DpInst {p4()} {H} {W} {sg} {s}"
+    if k == "dp_other":
+        return f"C2DpOther {p3()} {H} {W} {sg} {s}"
+    if k == "multi":
+        return f"C2Old (CMulti {p4()} {c['n_nodes']} {H} {W} {c['num']} {sg} {s})"
     if k == "dp_multi":                              # the DataPipe does not slice by num_instances
-        pts = core.clist(c["pts"], lambda smp: core.clist(smp, l3))
-        n_inst = len(c["pts"][0])
-        return f"CMulti {pts} {c['n_nodes']} {H} {W} {n_inst} {sg} {s}"
-    if k in ("cent", "dp_cent"):                     # centroid of an animal := its first node
-        cents = core.clist([[inst[0] for inst in smp] for smp in c["pts"]], l3)
-        return f"CCent {cents} {H} {W} {c['num']} {sg} {s}"
+        return f"C2DpMulti {p4()} {c['n_nodes']} {H} {W} {sg} {s}"
+    if k == "cent":
+        return f"C2Old (CCent {cents()} {H} {W} {c['num']} {sg} {s})"
+    if k == "dp_cent":
+        return f"C2DpCent {cents()} {H} {W} {c['num']} {sg} {s}"
+    xv, yv = core.clist(c["xv"], core.cq), core.clist(c["yv"], core.cq)
+    if k == "mk":
+        return f"C2Mk {p3()} {xv} {yv} {sg}"
+    if k == "mkmulti":
+        return f"C2MkMulti {p4()} {c['n_nodes']} {xv} {yv} {sg}"
     raise ValueError(k)
 
 
 # ---------------------------------------------------------------- implementation
-def to_tensor(pts, torch):
+def to_tensor(c, torch):
+    pts, n_nodes = c["pts"], c["n_nodes"]
+    dt = {"f32": torch.float32, "f64": torch.float64, "int": torch.int64}[c.get("opts", {}).get("dtype", "f32")]
+    if not pts[0]:
+        return torch.zeros((len(pts), 0, n_nodes, 2), dtype=dt)
     nan = float("nan")
-    return torch.tensor([[[[nan if v is None else float(v) for v in p] for p in inst] for inst in smp]
-                         for smp in pts], dtype=torch.float32).reshape(
-        len(pts), len(pts[0]), len(pts[0][0]) if pts[0] else 0, 2)
+    if dt == torch.int64:
+        data = [[[[int(v) for v in p] for p in inst] for inst in smp] for smp in pts]
+    else:
+        data = [[[[nan if v is None else float(v) for v in p] for p in inst] for inst in smp] for smp in pts]
+    return torch.tensor(data, dtype=dt).reshape(len(pts), len(pts[0]), n_nodes, 2)
 
 
 def run_impl(c, mods):
     torch, cm = mods
     k = c["kind"]
-    H, W, s, sg = c["H"], c["W"], c["s"], float(c["sigma"])
-    pts = c["pts"]
-    n_nodes = c["n_nodes"]
-    if pts[0]:
-        t = to_tensor(pts, torch)
-    else:
-        t = torch.zeros((len(pts), 0, n_nodes, 2), dtype=torch.float32)
+    o = c.get("opts", {})
+    H, W, s = c["H"], c["W"], c["s"]
+    sg = int(c["sigma"]) if o.get("sigma") == "int" and c["sigma"].denominator == 1 else float(c["sigma"])
+    t = to_tensor(c, torch)
+    num = torch.tensor(c["num"]) if o.get("num") == "tensor" else c["num"]
+    hw = {"tuple": (H, W), "size": torch.Size((H, W)), "list": [H, W]}[o.get("hw", "tuple")]
     if k == "gen3":
-        return cm.generate_confmaps(t[:, 0].clone(), (H, W), sg, s)
+        return cm.generate_confmaps(t[:, 0].clone(), hw, sg, s)
     if k == "gen4":
-        return cm.generate_confmaps(t.clone(), (H, W), sg, s)
+        return cm.generate_confmaps(t.clone(), hw, sg, s)
     if k == "multi":
-        return cm.generate_multiconfmaps(t.clone(), (H, W), c["num"], sg, s, False)
+        return cm.generate_multiconfmaps(t.clone(), hw, num, sg, s, False)
     if k == "cent":
-        return cm.generate_multiconfmaps(t[:, :, 0].clone(), (H, W), c["num"], sg, s, True)
-    img = torch.zeros((len(pts), 1, H, W))
-    if k == "dp_single":
-        ex = {"image": img, "instances": t.clone()}
-        return next(iter(cm.ConfidenceMapGenerator([ex], sigma=sg, output_stride=s)))["confidence_maps"]
+        return cm.generate_multiconfmaps(t[:, :, 0].clone(), hw, num, sg, s, True)
+    if k in MK_KINDS:
+        xv = torch.tensor([float(v) for v in c["xv"]], dtype=torch.float32)
+        yv = torch.tensor([float(v) for v in c["yv"]], dtype=torch.float32)
+        if k == "mk":
+            return cm.make_confmaps(t[:, 0].clone(), xv, yv, sg)
+        return cm.make_multi_confmaps(t.clone(), xv, yv, sg)
+    img = torch.zeros((len(c["pts"]), 1, H, W))
+    keys = o.get("keys", False)
+    ik = "img_custom" if keys else "image"
+    if k == "dp_single":                              # instance_key "instances": rank 4, flattened by the pipe
+        ex = {ik: img, "instances": t.clone(), "other": 7}
+        kw = {"image_key": ik} if keys else {}
+        out = next(iter(cm.ConfidenceMapGenerator([ex], sigma=sg, output_stride=s, **kw)))
+        assert out.get("other") == 7
+        return out["confidence_maps"]
+    if k == "dp_other":                               # any other instance_key: rank 3, used as it is
+        nk = "instance" if not keys else "inst_custom"
+        ik = "instance_image" if not keys else ik
+        ex = {ik: img, nk: t[:, 0].clone()}
+        out = next(iter(cm.ConfidenceMapGenerator([ex], sigma=sg, output_stride=s, image_key=ik, instance_key=nk)))
+        return out["confidence_maps"]
     if k == "dp_multi":
-        ex = {"image": img, "instances": t.clone(), "num_instances": c["num"]}
-        return next(iter(cm.MultiConfidenceMapGenerator([ex], sigma=sg, output_stride=s,
-                                                        centroids=False)))["confidence_maps"]
+        nk = "inst_custom" if keys else "instances"
+        ex = {ik: img, nk: t.clone(), "num_instances": num}
+        kw = {"image_key": ik, "instance_key": nk} if keys else {}
+        out = next(iter(cm.MultiConfidenceMapGenerator([ex], sigma=sg, output_stride=s, centroids=False, **kw)))
+        assert "centroids_confidence_maps" not in out
+        return out["confidence_maps"]
     if k == "dp_cent":
-        ex = {"image": img, "centroids": t[:, :, 0].clone(), "num_instances": c["num"]}
-        return next(iter(cm.MultiConfidenceMapGenerator([ex], sigma=sg, output_stride=s,
-                                                        centroids=True)))["centroids_confidence_maps"]
+        ex = {ik: img, "centroids": t[:, :, 0].clone(), "num_instances": num}
+        kw = {"image_key": ik} if keys else {}
+        out = next(iter(cm.MultiConfidenceMapGenerator([ex], sigma=sg, output_stride=s, centroids=True, **kw)))
+        assert "confidence_maps" not in out
+        return out["centroids_confidence_maps"]
     raise ValueError(k)
 
 
@@ -161,13 +326,13 @@ def contributors(c):
     (per the property statement, independent of the Coq model)."""
     k, pts, num = c["kind"], c["pts"], c["num"]
     per_sample = []
-    if k == "gen3":
+    if k in ("gen3", "dp_other", "mk"):
         for smp in pts:
             per_sample.append([[p] for p in smp[0]])
     elif k in ("gen4", "dp_single"):
         for smp in pts:
             per_sample.append([[p] for inst in smp for p in inst])
-    elif k in ("multi", "dp_multi"):
+    elif k in ("multi", "dp_multi", "mkmulti"):
         n = num if k == "multi" else len(pts[0])
         allinst = [inst for smp in pts for inst in smp[:n]]     # see ConfMaps.v: broadcast over samples
         for smp in pts:
@@ -179,15 +344,26 @@ def contributors(c):
     return per_sample
 
 
+def sample_grid(c):
+    """(xs, ys, effective sigma, grid given by the stride?)"""
+    if c["kind"] in MK_KINDS:
+        return [float(v) for v in c["xv"]], [float(v) for v in c["yv"]], float(c["sigma"])
+    H, W, s = c["H"], c["W"], c["s"]
+    return ([float(j * s) for j in range(-(-W // s))], [float(i * s) for i in range(-(-H // s))],
+            float(c["sigma"]) * s)
+
+
 def oracle(c, out):
     """Returns None or a reason string."""
-    H, W, s, sg = c["H"], c["W"], c["s"], float(c["sigma"])
-    h, w = -(-H // s), -(-W // s)
+    xs, ys, sg = sample_grid(c)
+    h, w = len(ys), len(xs)
     contrib = contributors(c)
     shape = tuple(out.shape)
     want = (len(c["pts"]), len(contrib[0]), h, w)
     if shape != want:
         return f"shape {shape} != {want}"
+    if not out.dtype.is_floating_point:
+        return f"dtype {out.dtype} is not a floating-point type"
     o = out.tolist()
     for si, chans in enumerate(contrib):
         for ci, kps in enumerate(chans):
@@ -202,19 +378,19 @@ def oracle(c, out):
                         return f"value {v} outside [0,1] at {(si, ci, i, j)}"
                     exp = 0.0
                     for p in vis:
-                        d2 = (j * s - float(p[0])) ** 2 + (i * s - float(p[1])) ** 2
-                        exp = max(exp, math.exp(-d2 / (2 * (sg * s) ** 2)))
+                        d2 = (xs[j] - float(p[0])) ** 2 + (ys[i] - float(p[1])) ** 2
+                        exp = max(exp, math.exp(-d2 / (2 * sg ** 2)))
                     if abs(v - exp) > ATOL + RTOL * exp:
                         return f"value {v} != exp(-d^2/2(sigma*stride)^2) = {exp} at sample {si} channel {ci} cell {(i, j)}"
                     if len(vis) == 1:
-                        d2 = (j * s - float(vis[0][0])) ** 2 + (i * s - float(vis[0][1])) ** 2
+                        d2 = (xs[j] - float(vis[0][0])) ** 2 + (ys[i] - float(vis[0][1])) ** 2
                         if v > best_val:
                             best_val, best_cell, best_d = v, (i, j), d2
             if len(vis) == 1 and best_val > 1e-30:
-                dmin = min((j * s - float(vis[0][0])) ** 2 + (i * s - float(vis[0][1])) ** 2
+                dmin = min((xs[j] - float(vis[0][0])) ** 2 + (ys[i] - float(vis[0][1])) ** 2
                            for i in range(h) for j in range(w))
                 # largest at the nearest cell (ties between equidistant cells allowed)
-                if best_d > dmin + 1e-3 * (sg * s) ** 2:
+                if best_d > dmin + 1e-3 * sg ** 2:
                     return f"channel {ci} maximum at {best_cell} is not the nearest grid cell"
     return None
 
@@ -239,9 +415,14 @@ def compare(c, model, out):
 
 
 def case_json(c):
-    return {**{k: c[k] for k in ("kind", "H", "W", "s", "num", "n_nodes")}, "sigma": str(c["sigma"]),
-            "pts": [[[[None if v is None else str(v) for v in p] for p in inst] for inst in smp]
-                    for smp in c["pts"]]}
+    j = {**{k: c[k] for k in ("kind", "H", "W", "s", "num", "n_nodes")}, "sigma": str(c["sigma"]),
+         "pts": [[[[None if v is None else str(v) for v in p] for p in inst] for inst in smp]
+                 for smp in c["pts"]],
+         "opts": c.get("opts", {})}
+    for k in ("xv", "yv"):
+        if k in c:
+            j[k] = [str(v) for v in c[k]]
+    return j
 
 
 def case_from_json(j):
@@ -249,32 +430,91 @@ def case_from_json(j):
     c["sigma"] = F(j["sigma"])
     c["pts"] = [[[tuple(None if v is None else F(v) for v in p) for p in inst] for inst in smp]
                 for smp in j["pts"]]
+    c.setdefault("opts", {})
+    for k in ("xv", "yv"):
+        if k in j:
+            c[k] = [F(v) for v in j[k]]
     return c
+
+
+def admissible(c):
+    if c["kind"] in ("gen3", "gen4", "dp_single", "dp_other", "mk") and not c["pts"][0]:
+        return False
+    return True
+
+
+# ---------------------------------------------------------------- make_grid_vectors
+def grid_tie(run, torch, thorough):
+    from sleap_nn.data import utils as du
+    rng = run.rng
+    triples = [(0, 0, 1), (1, 1, 1), (0, 5, 2), (7, 3, 8), (5, 5, 32), (16, 24, 4)]
+    for _ in range(300 if thorough else 60):
+        s = rng.choice([1, 2, 3, 4, 8, 16, 32])
+        triples.append((rng.randint(0, 70), rng.randint(0, 70), s))
+    terms = [f"({h}, {w}, {s})%nat" for h, w, s in triples]
+    model = core.coq_eval_sharded(PREAMBLE, terms, "run_grid", "rpair (rlist rQ) (rlist rQ)", shard=400, jobs=2)
+    bad = 0
+    for (h, w, s), m in zip(triples, model):
+        try:
+            xv, yv = du.make_grid_vectors(h, w, s)
+            got = ([float(v) for v in xv.tolist()], [float(v) for v in yv.tolist()])
+            dts = (xv.dtype, yv.dtype, xv.ndim, yv.ndim)
+        except Exception as e:
+            got, dts = f"{type(e).__name__}: {e}", None
+        want = ([a[0] / a[1] for a in m[0]], [a[0] / a[1] for a in m[1]])
+        prop = ([float(k * s) for k in range(-(-w // s))], [float(k * s) for k in range(-(-h // s))])
+        if got != prop or dts != (torch.float32, torch.float32, 1, 1):
+            run.violation("failing-input", {"grid": [h, w, s], "impl": str(got)[:300], "dtypes": str(dts),
+                                            "oracle": "grid vectors are not 0, stride, 2*stride, ... < size (float32)"})
+        if got != want:
+            bad += 1
+            run.proof_broken.append(f"correspondence C01 make_grid_vectors({h},{w},{s}): impl {str(got)[:200]} model {want}")
+    run.obligation("correspondence: Entry.make_grid_vectors (Coq) == utils.make_grid_vectors (/repo), values exact, float32",
+                   bad == 0, f"{bad} disagreements")
+    run.coverage["grid_cases"] = len(triples)
 
 
 def check(run: core.Run) -> int:
     run.build_and_prove(PROP_FILES)
+    static_tie(run)
     core.impl_env_setup()
     import torch
     from sleap_nn.data import confidence_maps as cm
     mods = (torch, cm)
     thorough = run.tier == "thorough"
-    n = 3000 if thorough else 240
+    n = 3000 if thorough else 420
     cases = []
     corpus = sorted((core.CORPUS / "C01").glob("*.json")) if (core.CORPUS / "C01").exists() else []
     for f in corpus:
         cases.append(case_from_json(json.load(open(f))))
+    n_stream = 200 if thorough else 30
+    for stream in ("empty", "nanfirst"):
+        k = 0
+        while k < n_stream:
+            c = gen_case(run.rng, thorough, stream)
+            if admissible(c):
+                c["stream"] = stream
+                cases.append(c)
+                k += 1
     while len(cases) < n:
         c = gen_case(run.rng, thorough)
-        if c["kind"] in ("gen3", "gen4", "dp_single") and not c["pts"][0]:
-            continue
-        cases.append(c)
-    model = core.coq_eval_sharded(PREAMBLE, [term(c) for c in cases], "run", RENDER, shard=60, jobs=12)
+        if admissible(c):
+            cases.append(c)
+    model = core.coq_eval_sharded(PREAMBLE, [term(c) for c in cases], "run2", RENDER, shard=60, jobs=12)
     disagree = 0
     dist = {}
     for c, m in zip(cases, model):
-        dist[c["kind"]] = dist.get(c["kind"], 0) + 1
-        dist[f"stride{c['s']}"] = dist.get(f"stride{c['s']}", 0) + 1
+        o = c.get("opts", {})
+        for key in (c["kind"], f"stride{c['s']}", f"dtype_{o.get('dtype', 'f32')}", f"num_{o.get('num', 'int')}",
+                    f"hw_{o.get('hw', 'tuple')}", f"sigma_{o.get('sigma', 'float')}",
+                    f"stream_{c.get('stream', 'main')}", f"samples{len(c['pts'])}"):
+            dist[key] = dist.get(key, 0) + 1
+        if c["sigma"] in SIGMAS_EXTREME:
+            dist["sigma_extreme"] = dist.get("sigma_extreme", 0) + 1
+        if c["H"] % c["s"] or c["W"] % c["s"]:
+            dist["size_not_divisible"] = dist.get("size_not_divisible", 0) + 1
+        if c["s"] > max(c["H"], c["W"]):
+            dist["stride_gt_image"] = dist.get("stride_gt_image", 0) + 1
         nvis = sum(visible(p) for smp in c["pts"] for inst in smp for p in inst)
         run.case(case_json(c), nontrivial=(nvis >= 1 and c["H"] * c["W"] >= 4))
         try:
@@ -293,20 +533,25 @@ def check(run: core.Run) -> int:
             run.violation("failing-input", {"case": case_json(c), "oracle": bad, "correspondence": diff})
         elif diff:
             run.proof_broken.append(f"correspondence C01 model vs implementation: {diff}; case {json.dumps(case_json(c))[:600]}")
-    run.obligation("correspondence: ConfMaps.run (Coq, vm_compute) == confidence_maps.py (/repo) on every case",
+    run.obligation("correspondence: Entry.run2 (Coq, vm_compute) == confidence_maps.py (/repo) on every case",
                    disagree == 0, f"{disagree} disagreements")
+    grid_tie(run, torch, thorough)
     run.coverage.update({
         "input_distribution": dist, "disagreements": disagree,
-        "rule": "case = (entry point, keypoint array with NaN pattern, H, W, stride, sigma); non-trivial = at least one "
-                "visible keypoint and H*W >= 4; distinct by full case content",
+        "rule": "case = (entry point, keypoint array with NaN pattern, H, W, stride, sigma, call options); non-trivial = "
+                "at least one visible keypoint and H*W >= 4; distinct by full case content",
         "tolerance": {"atol": ATOL, "rtol": RTOL},
     })
     for c in cases[:3]:
         run.sample(case_json(c))
     run.trusted += ["torch.exp / nan_to_num / maximum / arange float32 kernels are modelled (exact rational argument of exp), "
                     "compared within float32 tolerance",
-                    "with n_samples > 1 make_multi_confmaps broadcasts every instance over all samples; modelled as coded"]
-    run.assumptions += ["coordinates are finite or NaN (no +-inf), sigma > 0"]
+                    "with n_samples > 1 make_multi_confmaps broadcasts every instance over all samples; modelled as coded "
+                    "(and proved of the loop: c01_ir_make_multi_confmaps)",
+                    "translator/c01_confmaps2coq.py (stdlib ast, fail-closed): the reading of torch.arange / reshape / exp / "
+                    "nan_to_num / zeros / maximum / view / unsqueeze / basic slicing as the constructors of C01/TExpr.v; "
+                    "validated by the dynamic correspondence on every run"]
+    run.assumptions += ["coordinates are finite or NaN (no +-inf), sigma > 0, output_stride >= 1, num_instances >= 0"]
     return run.finish()
 
 
@@ -315,8 +560,14 @@ def replay(run: core.Run, path: str) -> int:
     import torch
     from sleap_nn.data import confidence_maps as cm
     rep = json.load(open(path))
+    if "case" not in rep:
+        print(json.dumps({"oracle": rep.get("oracle"), "note": "not a keypoint case", "replay": rep}, default=str)[:2000])
+        return 1
     c = case_from_json(rep["case"])
-    out = run_impl(c, (torch, cm))
-    bad = oracle(c, out)
+    try:
+        out = run_impl(c, (torch, cm))
+        bad = oracle(c, out)
+    except Exception as e:
+        bad = f"{type(e).__name__}: {e}"
     print(json.dumps({"oracle": bad}))
     return 1 if bad else 0
